@@ -68,7 +68,8 @@ def expect(base: str, op: str, operand_is_undefined: bool = False):
     # ---- strict: nothing else -------------------------------------------------
     if strict:
         if op in ("str", "format", "bool", "not", "iter", "aiter", "len", "hash", "eq", "ne",
-                  "req", "rne", "contains", "in_list", "in_dict", "eq_self", "concat"):
+                  "req", "rne", "contains", "in_list", "in_tuple", "in_set", "in_dict", "eq_self",
+                  "concat", "eq_in_dict_agree"):
             return ERR
         raise KeyError(op)
     # ---- printable / iterable / boolean --------------------------------------
@@ -95,8 +96,14 @@ def expect(base: str, op: str, operand_is_undefined: bool = False):
         return ("weak", "isbool", None) if operand_is_undefined else ("weak", "is", True)
     if op == "eq_self":
         return ("weak", "is", True)
-    if op in ("in_list", "in_dict"):
+    if op in ("in_list", "in_tuple", "in_set", "in_dict"):
         return ("weak", "isbool", None) if operand_is_undefined else ("weak", "is", False)
+    if op == "eq_in_dict_agree":
+        # (u == x) == (u in {x: 1}): whatever == answers, hashing must be consistent with it
+        # (Python data model: objects that compare equal have the same hash; CHANGES 2.6
+        # "support for properly hashing undefined objects") - so a dict finds u under the key
+        # x exactly when u == x
+        return ("weak", "is", True)
     raise KeyError(op)
 
 
